@@ -258,6 +258,9 @@ func c01Eval(ctx *engine.Ctx, u *c01Univ, dir string, iss, sub int, chain []int,
 		mk := func() *c01Case { return &c01Case{Iss: iss, Sub: sub, Chain: append([]int{}, chain...)} }
 		if dir == "sound" && mask != 0 && aud < 0 {
 			oddHooksRefuse(ctx, mk(), inv, u.loader, "rules {"+ruleNames(mask)+"} are violated")
+			if len(prf) <= 2 {
+				loaderPanicsRefuse(ctx, mk(), inv, u.loader, prf, "rules {"+ruleNames(mask)+"} are violated")
+			}
 			// the same chain behind an invocation of a command from the namespace the UCAN specifications reserve for
 			// themselves, with the argument such an invocation carries (the CID of the first proof): the alignment
 			// rules are the same for every command (the delegations grant /a: it is refused in any case)
